@@ -126,6 +126,8 @@ func (f *wsFactory) NewSession(_ ws.Connection) *client.WSSession {
 }
 
 type xRun struct {
+	picks []int
+	starved string
 	events []string
 	rets   [][]string
 	widths []int
@@ -167,6 +169,9 @@ func runX(cf xConf, choices []int, free bool) xRun {
 		s.Release()
 	}
 	defer attachFine(s, free)()
+	if fineMode && !free && fineStarve != "" {
+		s.Starve, s.StarveBudget = fineStarve, 3*wsCloseDeadline
+	}
 	var mu sync.Mutex
 	res := xRun{rets: make([][]string, len(cf.progs))}
 	cur := map[string]*xOp{}
@@ -261,6 +266,7 @@ func runX(cf xConf, choices []int, free bool) xRun {
 	mu.Unlock()
 	res.panics = s.Panics
 	res.strace = s.Trace
+	res.picks, res.starved = picksOf(s), s.Starve
 	return res
 }
 
@@ -280,7 +286,7 @@ func xExplore(c *core.Ctx, cf xConf, max int, judge func(run xRun, replay map[st
 	n, ex := explore(c, max, func(choices []int) []int {
 		c.InFlight(map[string]interface{}{"configuration": cf.name, "programs": cf.modelProgs(), "plan": cf.modelPlan(), "choices": fmt.Sprint(choices)})
 		run := runX(cf, choices, false)
-		choices = effective(choices, run.widths)
+		choices = effective(choices, run.picks)
 		c.Eval()
 		tr := strings.Join(run.events, ";")
 		if tr == "" {
@@ -289,6 +295,9 @@ func xExplore(c *core.Ctx, cf xConf, max int, judge func(run xRun, replay map[st
 		distinct[tr] = true
 		replay := map[string]interface{}{"configuration": cf.name, "programs": cf.modelProgs(), "plan": cf.modelPlan(), "choices": fmt.Sprint(choices),
 			"schedule": trunc(sched.RenderTrace(run.strace), 600), "events": trunc(tr, 500), "results": renderRets(run.rets)}
+		if run.starved != "" {
+			replay["starved"] = run.starved + " is not resumed while parked at an I/O event (stalled underlying call), for up to 3 close deadlines"
+		}
 		for name, p := range run.panics {
 			c.Violation("panic", "c17-panic", fmt.Sprintf("goroutine %s panicked: %v (%s)", name, p, cf.name), replay)
 		}
